@@ -12,25 +12,32 @@ import vtlib
 from checks import datacheck
 
 META = dict(
-   text='TLC exhausts the transcribed DeserializerIOV (body from the back, checksum, aligned pass, other pass, one claim '
-        'per step: pointer / copy / short) for every message built from the field kinds (buffer, aligned_buffer, string, '
-        'array, fixed_buffer, iovec_array, aligned_iovec_array, embedded message, array of messages, sorted_map; checked and '
-        'unchecked) with 1-2 fields (thorough: up to 3), every partition of the serialized bytes into <= 3 iovec elements at '
-        'every cut position, every hostile value {0,1,rem-1,rem,rem+1,MAX} of one (thorough: two) wire words, every hostile '
-        '(offset,length) of one map slice and every altered byte position: RoundTrip, HostileContained, ChecksumRejects, '
-        'NoCrash, step machine = functional version. The real SerializerIOV/DeserializerIOV are executed (ASan+UBSan, each '
-        'batch in a forked child) on 12 message types over lengths {0,2} (thorough 0..3), every cut position of the variable '
-        'part into <= 3 elements, hostile words / slices / truncations with a valid checksum, altered bytes, plus seeded random '
-        'instances up to 1.5 kB in up to 6 elements; after a successful deserialization every byte of every field is read and '
-        'every map key looked up. Each recorded case (outcome, per field offset-in-input | copy | empty, length) is judged by '
-        'the reference operators and compared with the transcription in a trace specification.',
-   note='TLC result holds for the stated scope (abstract sizes: body/element/T = 2 bytes); larger instances only through seeded '
-        'random cases. Memory safety is decided on extents (what the deserializer hands out) plus sanitizer reports while '
-        'those extents are read; an access that neither shows in an extent nor trips ASan is missed. -fsanitize=null, '
-        'alignment, pointer-overflow are off (unaligned body and reference-to-null binding are by design and not accesses). '
-        'The harness is compiled -O2 like the shipped library: at -O0/-O1 the empty element loop of array<T> after a failed '
-        'claim spins over wire_length/sizeof(T) iterations. string::sv()/c_str() of a received zero-length string (pointer '
-        'is whatever the sender wrote) is outside the statement and not exercised on plain fields.',
+   text='TLC exhausts the transcribed DeserializerIOV (body from the back, checksum, aligned pass, other pass, one claim per '
+        'step: pointer / copy / short) for every message of 1 field from the field kinds (buffer, aligned_buffer, string, '
+        'array, fixed_buffer, iovec_array, aligned_iovec_array, embedded message, array of messages, sorted_map; lengths 0..2; '
+        'checked and unchecked) and every pair over a representative subset (thorough: every pair over 36 options, triples over '
+        '9), every partition of the serialized bytes into <= 3 iovec elements at every cut position (empty elements included), '
+        'every hostile value {0,1,rem-1,rem,rem+1,MAX} of one (thorough: two) wire words on <= 2 elements, every hostile '
+        '(offset,length) in {0,1,B-1,B,B+1,MAX,-1}x{0,1,B-1,B,B+1,MAX} of one map slice, every altered byte position and inputs '
+        'shorter than the body: RoundTrip (positions and byte ids), HostileContained, ChecksumRejects, NoCrash, step machine = '
+        'functional version; each of the 5 known deviations (KF_ switches = the code as shipped) is a TLC counterexample. The real '
+        'SerializerIOV/DeserializerIOV are executed (ASan+UBSan) on 12 message types M<checked?,A,B,C> built from the same kinds '
+        'over lengths {0,2} (thorough 0..3), every cut position of the variable part (+ representative ones in the body) into <= 3 '
+        'elements, hostile words (singles, pairs; thorough triples) / slices / missing tails with a checksum made by the '
+        'library\'s own add_checksum, altered bytes of checked messages, plus 150 (thorough 1500) seeded random instances per type '
+        'up to 200 (1500) bytes per field in up to 6 elements; after a successful deserialization every byte of every field is read, '
+        'every map entry iterated and every key looked up. Each recorded case (outcome; per field: offset in the supplied input | '
+        'copy and where its bytes occur | empty | null | wild, length; map entries; fixed fields) is judged by the reference '
+        'operators and compared with the transcription in a trace specification.',
+   note='TLC result holds for the stated scope (abstract sizes: body / element / T / index entry = 2 bytes); larger instances only '
+        'through seeded random cases. Memory safety is decided on extents (what the deserializer hands out) plus sanitizer '
+        'reports while those extents are read and the map is used; an access that neither shows in an extent nor trips ASan is '
+        'missed. -fsanitize=null, alignment, pointer-overflow are off (unaligned body, reference-to-null binding and null+offset '
+        'arithmetic happen by design / on the failure path and are not accesses). The harness is compiled -O2 -DNDEBUG like the '
+        'shipped library: at -O0/-O1 the empty element loop of array<T> after a failed claim spins over wire_length/sizeof(T) '
+        'iterations. string::sv()/c_str() of a received zero-length string (pointer is whatever the sender wrote) is outside the '
+        'statement and not exercised on plain fields; sorted_map::find() returning the lower bound for an absent key is not judged. '
+        'Words of array<Message> elements are hostile only where the array is claimed from its honest position.',
    technique='TLA+ transcription + TLC exhaustive small-scope check of RoundTrip/HostileContained/ChecksumRejects; trace '
              'validation of real outputs (TLC) per case; known findings classified by re-validation with one KF_ switch',
    design='3/C12')
@@ -134,8 +141,6 @@ def run(ctx):
     pool = ThreadPoolExecutor(max_workers=8)
     # 1. the design: every invariant holds on the specification without deviations ...
     f_mc = pool.submit(lambda: ctx.mc('MC_RpcSerialize', f'MC_RpcSerialize_{t}.cfg', timeout=3000, workers=12))
-    # thorough: the quick message set once more with two deviating words at a time
-    f_mc2 = pool.submit(lambda: ctx.mc('MC_RpcSerialize', 'MC_RpcSerialize_thorough2.cfg', timeout=3000, workers=4)) if t == 'thorough' else None
     # ... and each known deviation (the code as shipped) is a TLC counterexample (keeps the KF_ switches honest)
     f_kf = [(k, pool.submit(lambda k=k: ctx.mc('MC_RpcSerialize', f'MC_RpcSerialize_KF_{k[0]}.cfg', count=False, workers=2, xmx='3g', timeout=900)))
             for k in KFS]
@@ -153,9 +158,7 @@ def run(ctx):
             raise vtlib.InfraError('h_serialize wrote no cases: ' + o[-500:])
         return o, rows
     f_real = pool.submit(real)
-    for f in [f_mc, f_mc2]:
-        if f is None:
-            continue
+    for f in [f_mc]:
         r = f.result()
         if r['inv_violated'] or r['rc'] != 0:
             rp = ctx.save_replay('mc_counterexample.txt', r['out'][-8000:])
